@@ -251,3 +251,57 @@ def run_snippet(repo, module, src, env=None, inline=(), inline_ctor=(), facts=No
     except PathLimit as e:
         raise AnalysisError(str(e))
     return cont, done, ip
+
+
+def minmax_cases(*values, limit=6):
+    """Consistent case splits for two-argument max/min applications occurring in
+    the values.  Applications are grouped by the (sign-normalised) difference of
+    their arguments, so max(x, 0), max(-x, 0) and min(x + c, c) share one case
+    variable: either the difference is >= 0 or it is <= 0.  Returns a list of
+    substitution mappings (at most 2**limit); an identity that holds under every
+    mapping holds for all inputs (no path condition is solved: both signs of every
+    difference are always considered)."""
+    import itertools
+    groups = {}
+    for v in values:
+        for a in nf.value_atoms(v):
+            if is_app(a, ('max', 'min', 'maximum', 'minimum')) and len(a[2]) == 2 and all(isinstance(x, Poly) for x in a[2]):
+                x, y = a[2]
+                d = x - y
+                if d.is_zero():
+                    continue
+                c, q = d.content()
+                groups.setdefault(q.key, []).append((a, 1 if c > 0 else -1))
+    keys = sorted(groups)
+    if not keys:
+        return [{}]
+    if len(keys) > limit:
+        return None
+    out = []
+    for choice in itertools.product((1, -1), repeat=len(keys)):
+        m = {}
+        for k, ch in zip(keys, choice):
+            for a, sgn in groups[k]:
+                x, y = a[2]
+                x_ge_y = (sgn * ch) > 0          # sign of x - y under this case
+                big, small = (x, y) if x_ge_y else (y, x)
+                m[a] = big if a[1] in ('max', 'maximum') else small
+        out.append(m)
+    return out
+
+
+def identity_holds(lhs, rhs):
+    """lhs == rhs as normal forms, or under every consistent max/min case split."""
+    if lhs == rhs:
+        return True
+    cases = minmax_cases(lhs, rhs)
+    if not cases or cases == [{}]:
+        return False
+    for m in cases:
+        a, b = nf.subst_value(lhs, m), nf.subst_value(rhs, m)
+        # nested max/min may reappear after substitution: one more round
+        if a != b:
+            inner = minmax_cases(a, b)
+            if not inner or inner == [{}] or not all(nf.subst_value(a, mm) == nf.subst_value(b, mm) for mm in inner):
+                return False
+    return True
